@@ -341,6 +341,19 @@ def rule_jobs(ctx):
     ok = all(x is not None for x in order) and order == sorted(order)
     ctx.check(ok, 'R08.5/await-all', f.construct('jobs'), "all loci split into blocks, one job per block, every job awaited before the kill signal",
               f"job submission/await/kill order broken (statement indices loci,blocks,submit,get,kill = {order}); a failing worker would be lost or loci dropped", f.where())
+    # the writer is a job like the others: its result has to be awaited (after the kill signal, which ends it), otherwise an exception in
+    # the writer - an unencodable character, a closed pipe - drops every later record and the run still exits 0 (defect Z)
+    w_name, i_wget = None, None
+    for i, st in enumerate(body):
+        if isinstance(st, ast.Assign) and len(st.targets) == 1 and isinstance(st.targets[0], ast.Name) and isinstance(st.value, ast.Call) \
+                and isinstance(st.value.func, ast.Attribute) and st.value.func.attr == 'apply_async' and st.value.args \
+                and ast.unparse(st.value.args[0]) == 'self._writer':
+            w_name = st.targets[0].id
+        if w_name and isinstance(st, (ast.Expr, ast.Assign)) and isinstance(st.value, ast.Call) and ast.unparse(st.value.func) == f"{w_name}.get":
+            i_wget = i
+    ok_w = w_name is not None and i_wget is not None and i_kill is not None and i_wget > i_kill
+    ctx.check(ok_w, 'R08.5/await-writer', f.construct('writer'), "the writer job is awaited after the kill signal, so a fault in the writer fails the run",
+              "the result of the writer job is discarded: an exception in the writer process loses every later record while the run exits 0", f.where())
     # exception discipline on the locus path
     reach = ctx.eff.reachable(BASE + '_assemble_loci_wrapped') | ctx.eff.reachable(BASE + 'call_locus')
     n = 0
